@@ -194,7 +194,7 @@ func (d *director) serve(p *netsim.Peer, iv *wire.InvVect) {
 	d.mu.Lock()
 	defer d.mu.Unlock()
 	base := iv.Type == wire.InvTypeBlock
-	n := d.w.G.ByHash[iv.Hash]
+	n := d.w.G.Lookup(iv.Hash)
 	if n == nil || n.Block == nil {
 		d.w.Log.Add(p.Addr, "ev", "c06-getdata", "unknown block requested")
 		return
@@ -545,7 +545,7 @@ func Scenario(seed int64, k int, res *l2.Result) {
 	cacheChecked := 0
 	w.Svc.BlockCache.Range(func(iv wire.InvVect, cb *neutrino.CacheableBlock) bool {
 		cacheChecked++
-		n := w.G.ByHash[iv.Hash]
+		n := w.G.Lookup(iv.Hash)
 		got := cb.Block.MsgBlock()
 		keyKind := "witness-key"
 		bad := ""
@@ -819,7 +819,7 @@ func Scenario(seed int64, k int, res *l2.Result) {
 			}
 		}
 		outcome := "err"
-		truth := w.G.ByHash[c.Hash]
+		truth := w.G.Lookup(c.Hash)
 		if c.OK {
 			outcome = "ok"
 			if len(mine) == 0 {
@@ -968,7 +968,7 @@ func firstBad(a *Answer) Part {
 }
 
 func witStr(w *l2.World, h chainhash.Hash) string {
-	if n := w.G.ByHash[h]; n != nil && n.Block != nil && HasWitness(n.Block) {
+	if n := w.G.Lookup(h); n != nil && n.Block != nil && HasWitness(n.Block) {
 		return "block-with-witness"
 	}
 	return "block-without-witness"
